@@ -558,7 +558,11 @@ func (s *Sess) call(op *Op, out *Outcome) {
 	case "RelSet":
 		w.Relations().Set(entOf(*op.E), s.IDs[*op.Rel], entOf(*op.T))
 	case "RelGet":
-		w.Relations().Get(entOf(*op.E), s.IDs[*op.Rel])
+		if op.Alt {
+			w.Relations().GetUnchecked(entOf(*op.E), s.IDs[*op.Rel])
+		} else {
+			w.Relations().Get(entOf(*op.E), s.IDs[*op.Rel])
+		}
 	case "RelExchange":
 		w.Relations().Exchange(entOf(*op.E), s.ids(op.Add), s.ids(op.Rem), s.IDs[*op.Rel], entOf(*op.T))
 	case "BuilderAdd":
@@ -667,9 +671,17 @@ func (s *Sess) call(op *Op, out *Outcome) {
 	case "SetListener":
 		s.installListener(op.Lsn)
 	case "Get":
-		w.Get(entOf(*op.E), s.IDs[op.ID])
+		if op.Alt {
+			w.GetUnchecked(entOf(*op.E), s.IDs[op.ID])
+		} else {
+			w.Get(entOf(*op.E), s.IDs[op.ID])
+		}
 	case "Has":
-		w.Has(entOf(*op.E), s.IDs[op.ID])
+		if op.Alt {
+			w.HasUnchecked(entOf(*op.E), s.IDs[op.ID])
+		} else {
+			w.Has(entOf(*op.E), s.IDs[op.ID])
+		}
 	case "QueryRelation":
 		// position a query on entity E, then ask for the relation of component ID
 		q := w.Query(ecs.All())
